@@ -284,7 +284,68 @@ func genJsonxOwn(repo string) (string, error) {
 			}
 		}
 	}
+	// how files are opened for writing
+	opens := []string{}
+	if p, err := loadPkg(filepath.Join(repo, "jsonx")); err == nil {
+		for _, fd := range p.allFuncs() {
+			if fd.Body == nil {
+				continue
+			}
+			name := "jsonx." + fd.Name.Name
+			ast.Inspect(fd.Body, func(nd ast.Node) bool {
+				c, ok := nd.(*ast.CallExpr)
+				if !ok {
+					return true
+				}
+				switch p.src(c.Fun) {
+				case "os.WriteFile", "ioutil.WriteFile":
+					opens = append(opens, fmt.Sprintf("(%s, WOWriteFile)", coqStr(name)))
+				case "os.Create":
+					opens = append(opens, fmt.Sprintf("(%s, WOCreate)", coqStr(name)))
+				case "os.OpenFile":
+					if len(c.Args) == 3 {
+						if fl, ok := openFlags(p, c.Args[1]); ok {
+							if len(fl) == 1 && fl[0] == "O_RDONLY" {
+								return true // reading
+							}
+							qs := []string{}
+							for _, f := range fl {
+								qs = append(qs, coqStr(f))
+							}
+							opens = append(opens, fmt.Sprintf("(%s, (WOOpenFile [%s]))", coqStr(name), strings.Join(qs, "; ")))
+							return true
+						}
+					}
+					opens = append(opens, fmt.Sprintf("(%s, (WOUnknown %s))", coqStr(name), coqStr(p.src(c))))
+				case "os.Rename", "os.Link", "os.Symlink", "syscall.Open", "os.NewFile":
+					opens = append(opens, fmt.Sprintf("(%s, (WOUnknown %s))", coqStr(name), coqStr(p.src(c))))
+				}
+				return true
+			})
+		}
+	}
+	fmt.Fprintf(&b, "Definition gen_writefile_opens : list (string * wopen) :=\n  %s.\n\n", coqList(opens))
 	fmt.Fprintf(&b, "Definition gen_result_origins : list (string * list rorigin) :=\n  %s.\n\n", coqList(origins))
 	fmt.Fprintf(&b, "Definition gen_pkg_buffers : list (string * string) :=\n  %s.\n", coqList(vars))
 	return b.String(), nil
+}
+
+// openFlags: os.O_A | os.O_B | ... as the list of flag names.
+func openFlags(p *pkg, e ast.Expr) ([]string, bool) {
+	switch x := e.(type) {
+	case *ast.ParenExpr:
+		return openFlags(p, x.X)
+	case *ast.BinaryExpr:
+		if x.Op != token.OR {
+			return nil, false
+		}
+		a, ok1 := openFlags(p, x.X)
+		b, ok2 := openFlags(p, x.Y)
+		return append(a, b...), ok1 && ok2
+	case *ast.SelectorExpr:
+		if id, ok := x.X.(*ast.Ident); ok && (id.Name == "os" || id.Name == "syscall") && strings.HasPrefix(x.Sel.Name, "O_") {
+			return []string{x.Sel.Name}, true
+		}
+	}
+	return nil, false
 }
